@@ -123,7 +123,7 @@ def c05Cfg : Cfg :=
     bodies := [[.set 0 5, .raise], [.raise]] }
 def c05World : World :=
   { vals := [0, 0], batch := false, trigger := false, events := [], queued := [],
-    regs := [⟨0, [1], true, true, 0, 0⟩, ⟨1, [0], true, false, 0, 1⟩] }
+    regs := [⟨0, [1], true, true, 0, 0, 0⟩, ⟨1, [0], true, false, 0, 1, 1⟩] }
 
 example : idle c05World := by decide
 -- update applies p1 := 3, then p0 := 12 is rejected: raises, yet idle afterwards
